@@ -4,7 +4,7 @@ CONSTANTS
   NCalls = 3
   NWakers = 2
   CompleteTh = {0, 2}
-  FailTh = {1}
+  FailTh = {1, 2}
   LateSlack = 0
   WithPollPending = FALSE
   TimeoutAfterErrorOnly = FALSE
